@@ -28,13 +28,13 @@ QUAD = "xitorch/integrate/quad.py"
 
 def rules(model: Model, tier: str) -> List[RuleResult]:
     fc = ac.get_fncls(model, "_Quadrature")
-    R1 = RuleResult(PROP, "AC1", "arity of _Quadrature.backward and of quad's apply calls", min_instances=3)
+    R1 = RuleResult(PROP, "AC1", "arity of _Quadrature.backward and of quad's apply calls", min_instances=2)
     R2 = RuleResult(PROP, "AC2", "only the xl/xu slots may carry a gradient", min_instances=8)
     R3 = RuleResult(PROP, "AC3", "create_graph=torch.is_grad_enabled() in quad.py", min_instances=1)
     R4 = RuleResult(PROP, "AC4", "derivative-integrand pull-back: allow_unused=True and None -> zeros before packing", min_instances=2)
     R5 = RuleResult(PROP, "AC5", "inner quad receives the saved options by ** splat", min_instances=1)
     K = RuleResult(PROP, "C13-K", "no keyword is swallowed by a **kwargs parameter of the same name (all resolved calls of the package)", min_instances=10)
-    R6 = RuleResult(PROP, "AC6", "layout agreement of quad's apply calls with forward's split", min_instances=5)
+    R6 = RuleResult(PROP, "AC6", "layout agreement of quad's apply calls with forward's split", min_instances=3)
     I = RuleResult(PROP, "C13-I", "no isinstance(v, Tensor) on a value every reaching definition of which is torch.as_tensor/tensor(...)", min_instances=2)
     Z = RuleResult(PROP, "C13-Z", "no negative slicing by a count that can be zero without a guard", min_instances=1)
     L = RuleResult(PROP, "C13-L", "Leibniz boundary terms: signs, evaluation points, None-gating, pack/unpack order", min_instances=5)
@@ -145,6 +145,8 @@ def negative_count_slicing(model: Model, Z: RuleResult):
                 else:
                     Z.bad(f, enclosing_stmt(s), "negative slicing by the count `%s`, which can be 0: `x[-0:]` is the whole sequence and "
                           "`x[:-0]` is empty (the sibling code in solve_ivp guards the same hazard)" % nm, what=what)
+    if n_inst == 0:
+        Z.ok("xitorch", "no sequence is sliced by a negated count anywhere in the package (the hazard is absent)")
     return n_inst
 
 
